@@ -75,6 +75,17 @@ func Main(args []string) int {
 			return 2
 		}
 		re := regexp.MustCompile(args[2])
+		for _, k := range db.SortedKeys() {
+			if sp := db.Funcs[k]; sp.IsC && re.MatchString(k) {
+				r := GenCFunc(P, db, strings.TrimPrefix(k, "C."), sp)
+				for _, o := range r.Obls {
+					if strings.Contains(o.Name, args[3]) || (strings.HasSuffix(args[3], "$") && strings.HasSuffix(o.Name, strings.TrimSuffix(args[3], "$"))) {
+						fmt.Print(r.Query(o, false))
+						return 0
+					}
+				}
+			}
+		}
 		for _, k := range P.SortedFuncKeys() {
 			if !re.MatchString(k) {
 				continue
@@ -142,6 +153,24 @@ func cmdVerify(args []string) int {
 			}
 			for _, o := range r.Obls {
 				fmt.Printf("OBL %s prefix=%d goal=%s\n", o.Name, o.Prefix, o.Goal)
+			}
+		}
+	}
+	for _, k := range db.SortedKeys() {
+		sp := db.Funcs[k]
+		if sp.IsC && !sp.Trusted && !sp.NoBody && re.MatchString(k) {
+			r := GenCFunc(P, db, strings.TrimPrefix(k, "C."), sp)
+			rs = append(rs, r)
+			if *dump {
+				for _, d := range r.Decls {
+					fmt.Println(d)
+				}
+				for i, c := range r.Cmds {
+					fmt.Printf("%4d %s\n", i, c)
+				}
+				for _, o := range r.Obls {
+					fmt.Printf("OBL %s prefix=%d goal=%s\n", o.Name, o.Prefix, o.Goal)
+				}
 			}
 		}
 	}
